@@ -413,6 +413,9 @@ func isMuSel(info *types.Info, e ast.Expr) (ast.Expr, bool) {
 	return nil, false
 }
 
+// ifaceObserver: methods of an interface-typed guarded field that only observe the object behind it
+var ifaceObserver = map[string]bool{"Size": true, "Len": true, "IsEmpty": true, "Peek": true, "Search": true, "String": true}
+
 func (a *analyzer) note(s *state, e ast.Expr, write bool) {
 	for o := range a.roots(e) {
 		if o.F == "mu" {
@@ -591,8 +594,13 @@ func (a *analyzer) call(states []*state, c *ast.CallExpr) []*state {
 			recvExpr = f.X
 			states = a.expr(states, f.X)
 			if _, isIface := sel.Recv().Underlying().(*types.Interface); isIface {
+				// a call through an interface-typed field (the trie's result queue `t.q`): the object behind it is
+				// part of the guarded state (properties.jsonl lists Trie.q as guarded by Trie.mu), so the call is an
+				// access to that field's location -- a WRITE unless the method is one of the pure observers
+				write := !ifaceObserver[f.Sel.Name]
 				for _, s := range states {
 					s.cur.Ext = true
+					a.note(s, f.X, write)
 				}
 				return states
 			}
